@@ -1,4 +1,5 @@
-// COPY of harness/src/bin/urlhist.rs (everything but `main`; run_streams / run_known / run_replay made pub)
+// COPY of harness/src/bin/urlhist.rs (everything but `main`; run_streams / run_known / run_replay made pub;
+// the C02 arm of property_on_step skips the class Known_F_C02_9)
 // so that the C02 bin can run the history streams next to its parse streams.  Keep in sync:
 //   python3 tools/sync_c02_hist.py
 // Histories of mutating operations on Url: correspondence model <-> url crate after every step
@@ -30,7 +31,7 @@ fn hist_case(start: &str, ops: &[Op]) -> String {
 /// evaluate the property `prop` on the implementation for one step (before --op--> after)
 fn property_on_step(prop: &str, before: &Url, op: &Op, after: &Url, status: &str) -> Option<String> {
     match prop {
-        "C02" => prop_c02(after),
+        "C02" => if super::known_step_c02(before, op) { None } else { prop_c02(after) },
         "C03" => prop_c03(after, Some(before)).or_else(|| if prop_c02(after).is_none() { prop_c03_roundtrips(after) } else { None }),
         "C05" => prop_c05(after),
         "C06" => prop_c06(before, op, after, status),
